@@ -12,7 +12,7 @@ import random
 import types
 from typing import Any, List, Optional
 
-ROOTS = ["coro", "coro", "coro", "agen", "gen"]
+ROOTS = ["coro", "coro", "coro", "agen", "gen", "agen_thrown"]
 CORO_LINKS = ["await_coro", "await_gencoro", "await_wrapper", "await_gen", "agen_anext", "agen_asend", "agen_asend_agen", "agen_athrow",
               "agen_aclose", "async_for"]
 GEN_LINKS = ["yield_from"]
@@ -262,6 +262,26 @@ def build(spec: dict) -> Chain:
         ch.x = x
         ch.driver = x.asend(None)
         ch.driver.send(None)
+        return ch
+    if root == "agen_thrown":
+        # an async generator parked at a yield inside try/finally; a fresh __anext__ awaitable is thrown into before its first
+        # send (what a cancelled-before-its-first-step asyncio task does): the finally clause awaits the rest of the chain.
+        # On CPython 3.12 ag_running is False here although the generator is blocked in an await.
+        async def roota():
+            try:
+                yield 0
+            finally:
+                await aw(0)
+        x = ch.reg(roota())
+        ch.x = x
+        d0 = x.asend(None)
+        try:
+            d0.send(None)
+        except StopIteration:
+            pass
+        d = x.__anext__()
+        ch.driver = d
+        d.throw(Probe2())
         return ch
     raise ValueError(root)
 
